@@ -129,7 +129,7 @@ contract(MAC + '.generate_variant_bytecode_parts', props=['C10'], blocks_only=Tr
          params={'operands': 'str?', 'parser_class': 'opaque'}, returns='AssembledInstruction?',
          locals={'operand_list': 'list[str]', 'matched_operands': 'MatchedOperandSet?'},
          blocks={'match': dict(
-             where='body[0:4]', locals={},
+             where="between:if mnemonic != variant.mnemonic::if 'instructions' not in variant._variant_config", locals={},
              requires=[],
              may_raise={'SystemExit': 'True'},
              ensures=[
